@@ -1,12 +1,15 @@
 """C34  APK file access returns the archive's entries  (engine E2: bounded structure enumeration).
 
 Space: zip archives written by the standard library `zipfile` (gen/apkgen.make_zip - independent of the apkInspector
-reader androguard uses) over entry-name sets from the 13-name alphabet NAMES (all subsets of size <= 4 (thorough: 5),
-simplest first, + the full set) x entry method {stored, deflated, mixed} x content {empty, 1 byte, 70 kB, mixed}; every entry of an
+reader androguard uses) over entry-name sets: (A) all subsets of size <= 4 (thorough: 5) of the 13-name alphabet NAMES[:13]
+(DEX names, look-alikes, nested, non-ASCII, empty name), (B) all subsets of size 1..4 of {NFD accent, its NFC form, OHM SIGN,
+GREEK OMEGA, Hangul jamo sequence, Hangul syllable, classes.dex, a/b/c} holding a normalisation-sensitive name, + the full
+19-name set x entry method {stored, deflated, mixed} x content {empty, 1 byte, 70 kB, mixed}; every entry of an
 archive has its own content.  The APK is opened with APK(raw, raw=True, skip_analysis=True): the cheapest constructor
 path - the file-access API does not depend on the manifest analysis (a reduced set is also opened WITHOUT skip_analysis).
 Oracle (the generating model):
-  get_files()            = the entry names (as a multiset; order is not judged)
+  get_files()            = the entry names (as a multiset; order is not judged); every listed name is a stored name
+                           (so get_file(listed name) gives that entry's content - checked with the next line)
   get_file(n)            = the entry's uncompressed content, for every entry
   get_file(absent)       raises FileNotPresent, for every alphabet name not in the archive + prefixes of present names
   get_dex_names()        = exactly the root entries  classes<ASCII digits>*.dex  (decided by string operations, no regexp)
@@ -17,13 +20,14 @@ Oracle (the generating model):
 documented pattern).
 """
 import itertools
+import unicodedata
 
 from mc.core import Acc
 
 PROPERTY = "C34"
 LEVEL = "exploration"
-RULE = ("all subsets of size <= 4 (+ the full set) of a 13-name alphabet (plain / numbered / look-alike / nested / non-ASCII / "
-        "empty name) x {stored, deflated, mixed} x {empty, 1 byte, 70 kB, mixed} contents, each written by stdlib zipfile and "
+RULE = ("all subsets of size <= 4 of a 13-name alphabet (plain / numbered / look-alike / nested / non-ASCII / empty name) + all "
+        "subsets of size <= 4 of 6 Unicode-normalisation-sensitive names (NFD/NFC pairs) with 2 plain names + the full 19-name set, x {stored, deflated, mixed} x {empty, 1 byte, 70 kB, mixed} contents, each written by stdlib zipfile and "
         "opened by APK(raw=True); distinct by construction; non-trivial = at least one DEX or look-alike name in the archive")
 ASSUMPTIONS = ["stdlib zipfile writes conforming archives (it re-reads every generated archive in the harness: testzip)",
                "order of get_files()/get_dex_names() is not judged (the statement speaks of the set of entries)",
@@ -41,12 +45,18 @@ MANIFEST = {
 }
 
 NAMES = ["classes.dex", "classes2.dex", "classes02.dex", "classes10.dex", "classes2xdex", "classes.dexx", "Classes.dex",
-         "xclasses.dex", "lib/classes.dex", "assets/ünï/文件.txt", "", "a/b/c", "classes.dex\n"]
+         "xclasses.dex", "lib/classes.dex", "assets/ünï/文件.txt", "", "a/b/c", "classes.dex\n",
+         # names that are not stable under Unicode normalisation, each next to its NFC form (distinct zip entries)
+         "assets/e\u0301.txt", "assets/\u00e9.txt", "\u2126.bin", "\u03a9.bin", "\u1112\u1161\u11ab.txt", "\ud55c.txt"]
+NBASE = 13                      # the first 13 names: sub-product A; the 6 normalisation names + two plain ones: sub-product B
+UNI = [13, 14, 15, 16, 17, 18, 0, 11]
 CATEGORY = {"classes.dex": "plain", "classes2.dex": "numbered", "classes02.dex": "numbered-leading-zero",
             "classes10.dex": "numbered-two-digits", "classes2xdex": "lookalike-dot", "classes.dexx": "lookalike-suffix",
             "Classes.dex": "lookalike-case", "xclasses.dex": "lookalike-prefix", "lib/classes.dex": "nested",
             "assets/ünï/文件.txt": "non-ascii", "": "empty-name", "a/b/c": "other",
-            "classes.dex\n": "lookalike-trailing-newline"}
+            "classes.dex\n": "lookalike-trailing-newline",
+            "assets/e\u0301.txt": "nfd-accent", "assets/\u00e9.txt": "nfc-accent", "\u2126.bin": "ohm-sign",
+            "\u03a9.bin": "greek-omega", "\u1112\u1161\u11ab.txt": "hangul-jamo", "\ud55c.txt": "hangul-syllable"}
 METHODS = ["stored", "deflated", "mixed"]
 CONTENTS = ["empty", "1", "70k", "mixed"]
 EXTRA_ABSENT = ["nope", "a/b", "a/b/c/", "classes", "CLASSES.DEX", "/classes.dex"]
@@ -84,10 +94,16 @@ def size_class(b):
 
 
 def subsets(kmax=4):
+    """A: all subsets of size <= kmax of the first 13 names; B: all subsets of size 1..4 of the 6 normalisation-sensitive names
+    + classes.dex + a/b/c that hold at least one normalisation-sensitive name; finally the full 19-name set."""
     yield ()
     for k in range(1, kmax + 1):
-        for c in itertools.combinations(range(len(NAMES)), k):
+        for c in itertools.combinations(range(NBASE), k):
             yield c
+    for k in range(1, 5):
+        for c in itertools.combinations(UNI, k):
+            if any(i >= NBASE for i in c):
+                yield c
     yield tuple(range(len(NAMES)))
 
 
@@ -122,10 +138,27 @@ def judge(case, full_analysis=False):
         got = list(a.get_files())
         if sorted(got) != sorted(names):
             odd = sorted(set(got) ^ set(names))
-            out.append(("get_files:" + "+".join(sorted({CATEGORY.get(n, "other") for n in odd})),
+            out.append(("get_files:" + "+".join(sorted({CATEGORY[n] for n in odd if n in names}) or ["extra-name"]),
                         "%s: get_files() %r != entries %r" % (tag, got, names)))
     except Exception as e:     # noqa
         out.append(("get_files:exception:%s" % type(e).__name__, "%s: get_files() raised %s" % (tag, e)))
+    # 1b. every LISTED name must be readable and give the content of the entry stored under that name
+    try:
+        listed = list(a.get_files())
+    except Exception:     # noqa
+        listed = []
+    stored = {n: d for n, d, _ in entries}
+    for g in listed:
+        if g in stored:
+            continue
+        close = [n for n in names if unicodedata.normalize("NFC", n) == unicodedata.normalize("NFC", g)]
+        try:
+            a.get_file(g)
+            r = "returned data"
+        except Exception as e:     # noqa
+            r = "raised %s" % type(e).__name__
+        out.append(("listed-name-not-stored:" + "+".join(sorted(CATEGORY[n] for n in close) or ["other"]),
+                    "%s: get_files() lists %r which is not an entry (entries %r); get_file of it %s" % (tag, g, names, r)))
     # 2. contents
     for n, data, meth in entries:
         try:
@@ -202,7 +235,8 @@ def shards(ctx):
 
 def space(ctx):
     n = sum(1 for _ in cases(ctx))
-    return {"names": NAMES, "subset_sizes": "0..%d + full set" % (5 if ctx.thorough else 4), "methods": METHODS, "contents": CONTENTS,
+    return {"names": NAMES, "subset_sizes": "A: 0..%d of names[0:13]; B: 1..4 of names[13:19]+[classes.dex, a/b/c] with >= 1 of "
+                                                  "names[13:19]; + full set" % (5 if ctx.thorough else 4), "methods": METHODS, "contents": CONTENTS,
             "absent_probes": "alphabet names not in the archive + " + repr(EXTRA_ABSENT), "archives": n,
             "full_analysis_subset": "every 16th archive is additionally opened without skip_analysis"}
 
